@@ -40,6 +40,8 @@ pub struct Scenario {
     pub capacity: u32,
     pub cols: u32,
     pub prefill: u32,
+    /// a batch appended by the main thread after the prefill (lets a reservation end exactly on a bucket boundary)
+    pub pre_extend: u32,
     pub threads: Vec<Vec<Op>>,
 }
 
@@ -253,6 +255,11 @@ pub fn run_scenario(sc: &Scenario, policy: Policy, run_id: u64, lines: &mut Vec<
     for p in 0..sc.prefill {
         run_op(&vec, &sched, &Op::Push(1000 + p as u64));
     }
+    if sc.pre_extend > 0 {
+        let vals: Vec<u64> = (0..sc.pre_extend as u64).map(|k| 5000 + k).collect();
+        let n = vals.len();
+        run_op(&vec, &sched, &Op::Extend(vals, n));
+    }
     sched.user("start", String::new());
     let mut handles = Vec::new();
     for (k, ops) in sc.threads.iter().enumerate() {
@@ -292,7 +299,7 @@ pub fn run_scenario(sc: &Scenario, policy: Policy, run_id: u64, lines: &mut Vec<
 
 fn scenarios(thorough: bool, rng: &mut StdRng) -> Vec<Scenario> {
     let mut v = Vec::new();
-    let s = |name: &str, cap: u32, cols: u32, prefill: u32, threads: Vec<Vec<Op>>| Scenario { name: name.into(), capacity: cap, cols, prefill, threads };
+    let s = |name: &str, cap: u32, cols: u32, prefill: u32, threads: Vec<Vec<Op>>| Scenario { name: name.into(), capacity: cap, cols, prefill, pre_extend: 0, threads };
     use Op::*;
     v.push(s("push-push", 0, 1, 0, vec![vec![Push(1)], vec![Push(2)]]));
     v.push(s("push-get", 0, 1, 0, vec![vec![Push(1), Push(2)], vec![Get(0), Get(1), Get(0)]]));
@@ -310,6 +317,14 @@ fn scenarios(thorough: bool, rng: &mut StdRng) -> Vec<Scenario> {
     v.push(s("lazy-bucket-get", 0, 1, 20, vec![vec![Extend((1..=15).collect(), 15)], vec![Get(32), Get(33), Snapshot(30), Get(32)]]));
     v.push(s("lazy-bucket-push-get", 0, 2, 20, vec![vec![Extend((1..=11).collect(), 11), Push(50), Push(51)], vec![Get(32), Get(31), Get(32), Count]]));
     v.push(s("skip-bucket", 0, 1, 20, vec![vec![Extend(vec![1], 110), Push(7)], vec![Get(130), Get(20)]]));
+    // a batch that ends exactly on a bucket boundary bypasses the eager allocation: two pushes then race to
+    // allocate the same bucket
+    let mut b = s("alloc-race", 0, 1, 20, vec![vec![Push(1), Get(32), Get(33)], vec![Push(2), Get(33), Get(32)]]);
+    b.pre_extend = 12;
+    v.push(b);
+    let mut b = s("alloc-race-3", 0, 2, 20, vec![vec![Push(1), Get(32)], vec![Push(2), Get(33)], vec![Extend(vec![3, 4], 2), Get(34), Count]]);
+    b.pre_extend = 12;
+    v.push(b);
     v.push(s("panic-push", 0, 1, 0, vec![vec![PushPanic(1), Push(2)], vec![Push(3), Get(0)]]));
     v.push(s("panic-extend", 0, 1, 0, vec![vec![ExtendPanic(vec![1, 2, 3], 1)], vec![Push(4), Get(0), Get(1)]]));
     v.push(s("count-snapshot", 0, 1, 2, vec![vec![Push(1), Push(2)], vec![Count, Snapshot(0), Count]]));
@@ -350,7 +365,12 @@ fn scenarios(thorough: bool, rng: &mut StdRng) -> Vec<Scenario> {
             }
             threads.push(ops);
         }
-        v.push(s(&format!("random-{}", k), if rng.gen_bool(0.2) { 40 } else { 0 }, rng.gen_range(1..=2), prefill, threads));
+        let mut sc = s(&format!("random-{}", k), if rng.gen_bool(0.2) { 40 } else { 0 }, rng.gen_range(1..=2), prefill, threads);
+        if prefill == 0 && rng.gen_bool(0.3) {
+            sc.prefill = 20;
+            sc.pre_extend = 12;
+        }
+        v.push(sc);
     }
     v
 }
